@@ -67,6 +67,13 @@ pub fn selftest_main(full: bool) -> i32 {
             bad += 1;
         }
     }
+    match crate::collisions::verify_keystreams() {
+        Ok(n) => println!("selftest: {n} key streams with a zero word verified"),
+        Err(e) => {
+            println!("SELFTEST-FAIL key streams: {e}");
+            bad += 1;
+        }
+    }
     match crate::collisions::verify() {
         Ok(n) => println!("selftest: {n} colliding secret / message pairs collide under their fingerprints"),
         Err(e) => {
